@@ -21,6 +21,10 @@ const (
 	sysMaxLeafBytes = 256
 	sysValue        = 0
 	sysLine         = 1
+	sysZip          = 2
+	sysMaxZipSize   = 64 << 10
+	sysMaxZip       = 400
+	sysMaxZipSeeds  = 4
 )
 
 type SysCase struct {
@@ -30,7 +34,7 @@ type SysCase struct {
 }
 
 type SysStat struct {
-	Seeds, Structured, Value, Line int
+	Seeds, Structured, Value, Line, Zips, Zip int
 }
 
 const nLineEdits = 14
@@ -131,10 +135,17 @@ func lineEdit(lines [][]byte, i, e int) ([]byte, string, bool) {
 
 func (w *World) buildSys() {
 	for _, x := range w.Exts {
-		var cand []int
+		var cand, zcand []int
 		seen := map[[32]byte]bool{}
 		for _, si := range append(append([]int(nil), x.Own...), x.C03...) {
 			s := w.Seeds[si]
+			if looksZip(s.Data) && len(s.Data) <= sysMaxZipSize && !seen[s.Sha] {
+				seen[s.Sha] = true
+				if len(zcand) < sysMaxZipSeeds {
+					zcand = append(zcand, si)
+				}
+				continue
+			}
 			if s.Binary || len(s.Data) == 0 || len(s.Data) > sysMaxSeedSize || seen[s.Sha] {
 				continue
 			}
@@ -155,9 +166,15 @@ func (w *World) buildSys() {
 		if len(cand) > sysMaxSeeds {
 			cand = cand[:sysMaxSeeds]
 		}
+		cand = append(cand, zcand...)
 		for _, si := range cand {
 			data := w.Seeds[si].Data
 			x.SysStat.Seeds++
+			if looksZip(data) {
+				x.SysStat.Zip += w.buildSysZip(x, si)
+				x.SysStat.Zips++
+				continue
+			}
 			// value edits
 			if d := parseStructured(data); d != nil {
 				x.SysStat.Structured++
@@ -211,6 +228,46 @@ func (w *World) buildSys() {
 	}
 }
 
+// zip seeds: member-level edits of every member, then the metadata line edits of every line of every text member
+// (edit-rank-major).  B < nMemberEdits: member edit; else nMemberEdits + line*16 + index into memberLineEdits.
+func (w *World) buildSysZip(x *Ext, si int) int {
+	ms, ok := readZip(w.Seeds[si].Data)
+	if !ok {
+		return 0
+	}
+	nm := len(ms)
+	if nm > 40 {
+		nm = 40
+	}
+	cnt := 0
+	for e := 0; e < nMemberEdits && cnt < sysMaxZip; e++ {
+		for i := 0; i < nm && cnt < sysMaxZip; i++ {
+			if _, _, ok := memberEdit(ms, i, e); ok {
+				x.Sys = append(x.Sys, SysCase{si, sysZip, int32(i), int32(e)})
+				cnt++
+			}
+		}
+	}
+	for ei := range memberLineEdits {
+		for i := 0; i < nm; i++ {
+			if !textMember(ms[i]) {
+				continue
+			}
+			nl := len(splitLinesKeep(ms[i].data))
+			if nl > 60 {
+				nl = 60
+			}
+			for l := 0; l < nl && cnt < sysMaxZip; l++ {
+				if _, _, ok := memberLineEdit(ms, i, l, memberLineEdits[ei]); ok {
+					x.Sys = append(x.Sys, SysCase{si, sysZip, int32(i), int32(nMemberEdits + l*16 + ei)})
+					cnt++
+				}
+			}
+		}
+	}
+	return cnt
+}
+
 func (w *World) genSysCase(e int, k int64, sc SysCase) *Case {
 	x := w.Exts[e]
 	seed := w.Seeds[sc.Seed]
@@ -236,6 +293,22 @@ func (w *World) genSysCase(e int, k int64, sc SysCase) *Case {
 					c.Data = out
 					label = fmt.Sprintf("systematic value-edit(%s leaf#%d %q -> %q)", d.kind, sc.A, clip40(old), clip40(eds[sc.B]))
 				}
+			}
+		}
+	case sysZip:
+		c.Ops = []int{opArchiveEdit}
+		if ms, ok := readZip(seed.Data); ok && int(sc.A) < len(ms) {
+			var out []zmember
+			var l string
+			var done bool
+			if int(sc.B) < nMemberEdits {
+				out, l, done = memberEdit(ms, int(sc.A), int(sc.B))
+			} else {
+				v := int(sc.B) - nMemberEdits
+				out, l, done = memberLineEdit(ms, int(sc.A), v/16, memberLineEdits[v%16%len(memberLineEdits)])
+			}
+			if done {
+				c.Data, label = writeZip(out), "systematic archive-edit("+l+")"
 			}
 		}
 	case sysLine:
